@@ -489,7 +489,7 @@ theorem ti_sendPdu (h : TI s.timer now) : TI (sendPdu s now).timer now := by
   repeat' split
   all_goals ti_gor [ti_sendNaks, ti_sendFinished]
 theorem ti_finalizeFilePart (h : TI s.timer now) : TI (finalizeFilePart s now).1.timer now := by
-  simp only [finalizeFilePart]
+  simp only [finalizeFilePart, verifyStage, copyStage]
   repeat' split
   all_goals ti_gor [ti_handleFault]
 theorem ti_finalizeReceive (h : TI s.timer now) : TI (finalizeReceive s now).1.timer now := by
